@@ -18,9 +18,11 @@ STEP_BUDGET = 3_000_000  # monitoring events; a real evaluation uses a few hundr
 CPU_GUARD_S = 8  # for loops inside C code (no bytecode events); classified never-ends
 WALL_GUARD_S = 60  # the harness itself is stuck: reported as harness error
 NEVER_RC = 251
+# captured at import (in the pristine zygote): a run fork replaces these names with simulated ones
+_fork, _waitpid, _kill = os.fork, os.waitpid, os.kill
 
 
-def _child(script, stdin_mode, stdin_fd, out_w, err_w):
+def _child(script, stdin_mode, stdin_fd, out_w, err_w, args=()):
     try:
         os.dup2(stdin_fd, 0)
         os.dup2(out_w, 1)
@@ -32,7 +34,7 @@ def _child(script, stdin_mode, stdin_fd, out_w, err_w):
         sys.stdout = open(1, "w", closefd=False)
         sys.stderr = open(2, "w", closefd=False)
         sys.__stdin__, sys.__stdout__, sys.__stderr__ = sys.stdin, sys.stdout, sys.stderr
-        sys.argv = ["-c"]
+        sys.argv = ["-c"] + list(args)
         slept = [0.0]
 
         def fake_sleep(d):
@@ -113,7 +115,7 @@ def _blocked_in_read0(pid):
     return len(parts) >= 2 and parts[0] == "0" and parts[1] in ("0x0", "0")
 
 
-def intrinsic_outcome(script, stdin_mode, stdin_data=b""):
+def intrinsic_outcome(script, stdin_mode, stdin_data=b"", args=()):
     """run in the (pristine) zygote.  stdin_mode: 'inherit' (an open pipe nobody writes to),
     'eof' (/dev/null), 'data' (a pipe holding stdin_data, then closed)"""
     out_r, out_w = os.pipe()
@@ -128,13 +130,13 @@ def intrinsic_outcome(script, stdin_mode, stdin_data=b""):
             os.close(w)
         else:
             keep_open = w
-    pid = os.fork()
+    pid = _fork()
     if pid == 0:
         os.close(out_r)
         os.close(err_r)
         if keep_open is not None:
             os.close(keep_open)
-        _child(script, stdin_mode, stdin_fd, out_w, err_w)
+        _child(script, stdin_mode, stdin_fd, out_w, err_w, args)
         os._exit(253)
     os.close(out_w)
     os.close(err_w)
@@ -155,7 +157,7 @@ def intrinsic_outcome(script, stdin_mode, stdin_data=b""):
                     bufs[fd] += d
                 else:
                     open_fds.discard(fd)
-        wp, status = os.waitpid(pid, os.WNOHANG)
+        wp, status = _waitpid(pid, os.WNOHANG)
         if wp == pid:
             # drain
             for fd in list(open_fds):
@@ -175,13 +177,13 @@ def intrinsic_outcome(script, stdin_mode, stdin_data=b""):
             time.sleep(0.01)
             if _blocked_in_read0(pid):
                 state = "blocked-on-stdin"
-                os.kill(pid, signal.SIGKILL)
-                os.waitpid(pid, 0)
+                _kill(pid, signal.SIGKILL)
+                _waitpid(pid, 0)
                 status = None
                 break
         if time.monotonic() - t0 > WALL_GUARD_S:
-            os.kill(pid, signal.SIGKILL)
-            os.waitpid(pid, 0)
+            _kill(pid, signal.SIGKILL)
+            _waitpid(pid, 0)
             for fd in (out_r, err_r):
                 os.close(fd)
             if keep_open is not None:
